@@ -919,3 +919,71 @@ pub fn rename_rows(rows: &str, ren: &[(u64, u64)]) -> String {
     out.sort();
     out.join("/")
 }
+
+fn outcome_of(r: std::thread::Result<Result<RecordBatch, samyama::query::executor::ExecutionError>>) -> Outcome {
+    match r {
+        Ok(Ok(b)) => Outcome { rows: Ok(batch_rows(&b)), columns: b.columns.clone() },
+        Ok(Err(e)) => {
+            let m = format!("{}", e);
+            Outcome { rows: Err((classify(&m), m)), columns: vec![] }
+        }
+        Err(_) => Outcome { rows: Err((ErrKind::Other, "panic".into())), columns: vec![] },
+    }
+}
+
+/// A script on ONE `MutQueryExecutor`: built once with the first statement's parameters; when a later statement
+/// names a different parameter map the same executor is re-parameterised with `with_params` (executor state is
+/// carried from one statement to the next — that is the point).
+pub fn exec_script_mut(store: &mut GraphStore, script: &[(String, Option<HashMap<String, PropertyValue>>)]) -> Vec<Outcome> {
+    static QUIET: std::sync::Once = std::sync::Once::new();
+    QUIET.call_once(|| std::panic::set_hook(Box::new(|_| {})));
+    let mut out = vec![];
+    let mut ex = MutQueryExecutor::new(store, "default".to_string());
+    let mut current: Option<String> = None;
+    for (text, params) in script {
+        let key = params.as_ref().map(|p| {
+            let mut v: Vec<String> = p.iter().map(|(k, v)| format!("{}={}", k, pv_text(v))).collect();
+            v.sort();
+            v.join(";")
+        });
+        if key != current {
+            if let Some(p) = params {
+                ex = ex.with_params(p.clone());
+            }
+            current = key;
+        }
+        let q = match parse_query(text) {
+            Ok(q) => q,
+            Err(e) => {
+                out.push(Outcome { rows: Err((ErrKind::Parse, format!("{}", e))), columns: vec![] });
+                continue;
+            }
+        };
+        let r = std::panic::catch_unwind(std::panic::AssertUnwindSafe(|| ex.execute(&q)));
+        out.push(outcome_of(r));
+    }
+    out
+}
+
+/// the same on ONE read-only `QueryExecutor::with_params`
+pub fn exec_script_read(store: &GraphStore, script: &[String], params: Option<&HashMap<String, PropertyValue>>) -> Vec<Outcome> {
+    static QUIET: std::sync::Once = std::sync::Once::new();
+    QUIET.call_once(|| std::panic::set_hook(Box::new(|_| {})));
+    let mut ex = samyama::query::executor::QueryExecutor::new(store);
+    if let Some(p) = params {
+        ex = ex.with_params(p.clone());
+    }
+    let mut out = vec![];
+    for text in script {
+        let q = match parse_query(text) {
+            Ok(q) => q,
+            Err(e) => {
+                out.push(Outcome { rows: Err((ErrKind::Parse, format!("{}", e))), columns: vec![] });
+                continue;
+            }
+        };
+        let r = std::panic::catch_unwind(std::panic::AssertUnwindSafe(|| ex.execute(&q)));
+        out.push(outcome_of(r));
+    }
+    out
+}
